@@ -359,13 +359,18 @@ def run_check(cid, chk, tier, seed, work, only, jobs, t0):
             elif v['status'] == 'unknown' and a['status'] == 'unsat':
                 a['status'] = 'unknown'
                 a.setdefault('unknown_at', lab)
+        had_sat = any(v['status'] == 'sat' for v in (r.get('vcs') or {}).values())
         for lab, w in (r.get('covers') or {}).items():
             key = hbase + '/' + lab
-            if w:
+            if w and had_sat:
+                # witnesses found after a violated VC was assumed away are not used for validation
+                covers.setdefault(key, None)
+                covers[key] = covers[key] or {'harness': hbase, 'args': r['args'], 'nondet': w['nondet'], 'observes': w['observes'], 'skip': True}
+            elif w:
                 covers[key] = {'harness': hbase, 'args': r['args'], 'nondet': w['nondet'], 'observes': w['observes']}
             else:
                 covers.setdefault(key, None)
-        for w in r.get('witnesses') or []:
+        for w in ([] if had_sat else (r.get('witnesses') or [])):
             witnesses.append({'harness': hbase, 'args': r['args'], 'nondet': w['nondet'], 'observes': w['observes']})
 
     vacuous = [k for k, v in covers.items() if v is None]
@@ -383,7 +388,7 @@ def run_check(cid, chk, tier, seed, work, only, jobs, t0):
     import random
     rnd = random.Random(seed)
     wl = list(covers.items())
-    wsel = [(k, w) for k, w in wl if w]
+    wsel = [(k, w) for k, w in wl if w and not w.get('skip')]
     nwit = chk.get('witness_runs', {'quick': 25, 'thorough': 200})[tier]
     rnd.shuffle(witnesses)
     for k, w in wsel[:nwit]:
